@@ -279,12 +279,28 @@ func (s *V2Sessionless) buildAndSendCommand(ctx context.Context, c ipmi.Command)
 
 // responseMatches ensures a decoded message is a response to the command we
 // sent: the response network function is the request's plus one, and the
-// command number is echoed.
+// command number (and, for group extension and OEM/group network functions,
+// the defining body code or enterprise number) is echoed.
 func responseMatches(m *ipmi.Message, c ipmi.Command) error {
 	op := c.Operation()
 	if m.Function != op.Function+1 || m.Command != op.Command {
 		return fmt.Errorf("received response to %v/%v, sent %v/%v",
 			m.Function, m.Command, op.Function, op.Command)
+	}
+	// group extension and OEM/group commands are only identified together with
+	// their defining body code and enterprise number respectively, which the
+	// response echoes
+	switch op.Function {
+	case ipmi.NetworkFunctionGroupReq:
+		if m.Body != op.Body {
+			return fmt.Errorf("received response for defining body %v, sent %v",
+				m.Body, op.Body)
+		}
+	case ipmi.NetworkFunctionOEMReq:
+		if m.Enterprise != op.Enterprise {
+			return fmt.Errorf("received response for enterprise %v, sent %v",
+				m.Enterprise, op.Enterprise)
+		}
 	}
 	return nil
 }
